@@ -20,4 +20,5 @@ def run(ctx):
     ca.normal_pair(ctx)
     ctx.rule("R-CA-REGISTRY", "subscribe_request records the callback in the list the request handler walks", floor=1)
     ca.ca_registry_steps(ctx, which=("subscribe_request",))
+    ca.layer_ca_list(ctx, "J1939_21")
     return "request encoding/decoding, dispatch guard, handler guard formula and fan-out decided for all PGNs and addresses"
